@@ -53,6 +53,25 @@ class APM:
         return False
 
 
+def _parked_gen():
+    yield "parked"
+
+
+_PARKED = _parked_gen()
+next(_PARKED)
+
+
+def _reentrant_elaborate(mgr, context):
+    """the plain managers' elaborate_context hook re-enters the public API in the middle of the enclosing extraction
+    (with other options): everything elaborated afterwards must still be governed by the enclosing call's options"""
+    stackscope.extract_outermost(_PARKED, with_contexts=False, recurse_child_tasks=True)
+    stackscope.extract(_PARKED, with_contexts=False)
+
+
+stackscope.elaborate_context.register(PM)(_reentrant_elaborate)
+stackscope.elaborate_context.register(APM)(_reentrant_elaborate)
+
+
 def drive(coro):
     try:
         coro.send(None)
@@ -210,6 +229,18 @@ async def carrier_sib(env, root, is_async):
                 await env.trap()
 
 
+async def outer_carrier(env, root, is_async):
+    """the frame outward of the carrier holds a plain manager, whose (re-entrant, see _reentrant_elaborate) hook has
+    run by the time the carrier's own contexts are elaborated"""
+    with PM(0):
+        await carrier(env, root, is_async)
+
+
+def carrier_frame(st):
+    fs = [f for f in st.frames if f.funcname == "carrier"]
+    return fs[0] if fs else st.frames[0]
+
+
 async def carrier(env, root, is_async):
     if is_async:
         async with root as v:  # noqa: F841
@@ -301,12 +332,16 @@ def run_case(case):
             full_ops = root["ops"]
             root0 = dict(root, ops=[])
             mgr = env.build(root0)
-            co = carrier(env, mgr, root["async"])
+            co = outer_carrier(env, mgr, root["async"])
             co.send(None)
             for k, op in enumerate(full_ops):
                 env.apply(mgr, root, k, op)
                 st = stackscope.extract(co)
-                ctx = st.frames[0].contexts[0]
+                cf = carrier_frame(st)
+                if len(cf.contexts) != 1:
+                    bad.append("after op %d (%s): the carrier frame has %d contexts" % (k, op["op"], len(cf.contexts)))
+                    break
+                ctx = cf.contexts[0]
                 exp = stepwise[k]
                 compare(env, ctx, exp, "after op %d (%s)" % (k, op["op"]), bad)
                 check_child_objs(env, ctx, dict(root, ops=full_ops[:k + 1]), bad, "after op %d" % k)
@@ -314,14 +349,14 @@ def run_case(case):
                     bad.append("after op %d: error %r" % (k, st.error))
         else:
             mgr = env.build(root, root_exiting=exiting and root["k"] != "stack")
-            co = carrier(env, mgr, root["async"])
+            co = outer_carrier(env, mgr, root["async"])
             co.send(None)
             if exiting:
                 co.send(None)       # leave the body: now suspended inside the root manager's exit
             st = stackscope.extract(co)
             if st.error is not None:
                 bad.append("error %r" % (st.error,))
-            fr = st.frames[0]
+            fr = carrier_frame(st)
             if len(fr.contexts) != 1:
                 bad.append("carrier frame has %d contexts" % len(fr.contexts))
             else:
